@@ -65,6 +65,8 @@ impl ContentPack {
     }
 
     fn get_cluster(&self, cluster_index: ClusterIdx) -> Result<Arc<Cluster>> {
+        #[cfg(jubako_verif)]
+        crate::verif_hooks::point("cache_get", cluster_index.into_u64(), 0);
         let mut cache = self.cluster_cache.lock().unwrap();
         let cached = cache.try_get_or_insert(cluster_index, || self._get_cluster(cluster_index))?;
         Ok(cached.clone())
